@@ -54,7 +54,7 @@ def f_tocfg_strings(a):
     from genlm.grammar.wfsa.base import WFSA
     R = gops.SR[a["sr"]]
     Xs = [gops.ustr(x) for x in a["Xs"]]
-    if a.get("as_str"):
+    if a.get("as_str") and all(isinstance(c, str) for x in Xs for c in x):     # (token ids have no string form)
         Xs = ["".join(x) for x in Xs]
     m = WFSA.from_strings(Xs, R) if len(Xs) > 1 else WFSA.from_string(Xs[0], R)
     g = m.to_cfg(recursion=a["recursion"])
